@@ -166,7 +166,7 @@ func init() {
 	}
 	propSpecs["C10"] = &PropSpec{
 		ID:       "C10",
-		Patterns: []string{"./internal/jsonschema", "./internal/ast", "./internal/orderedmap", "./internal/tools"},
+		Patterns: []string{"./internal/jsonschema", "./internal/openapi", "./internal/ast", "./internal/orderedmap", "./internal/tools"},
 		Level:    "proof",
 		Prepare:  func(e *Engine) { e.assumeKindInv = true },
 		Opts: func(e *Engine, key string) VerifyOpts {
